@@ -125,7 +125,11 @@ impl StateSpace for SO2StateSpace {
 
     /// Modifies the state by clamping each of its values to the space's bounds.
     fn enforce_bounds(&self, state: &mut Self::StateType) {
-        *state = state.normalise();
+        // An angle that is already in [-PI, PI] is left as it is: normalising it again can move it
+        // by an ulp.
+        if !(state.value >= -PI && state.value <= PI) {
+            *state = state.normalise();
+        }
 
         if self.satisfies_bounds(state) {
             return;
@@ -144,7 +148,13 @@ impl StateSpace for SO2StateSpace {
 
     /// Checks if a state is within the defined angular bounds.
     fn satisfies_bounds(&self, state: &Self::StateType) -> bool {
-        let val = state.clone().normalise().value;
+        // A canonical angle is compared as it is. Normalising it again can move it by an ulp, which
+        // made the check reject the bounds themselves (e.g. 0.1 for the interval (-1.0, 0.1)).
+        let val = if state.value >= -PI && state.value <= PI {
+            state.value
+        } else {
+            state.clone().normalise().value
+        };
         let (lower, upper) = self.bounds;
         val >= lower && val <= upper
     }
